@@ -41,7 +41,11 @@ pub(crate) fn run() -> Result<(), Error> {
             log_err!("cannot build the empty target (\"\").\n");
             process::exit(EXIT_INVALID_TARGET);
         }
-        if Path::new(&t).exists() {
+        // "Exists" is asked of the file the dependency is recorded under (the name cleaned
+        // of "..", seen from the project's base) -- that is what later runs test.  The
+        // argument as written can fail to exist while that file does: "nosuch/../f".
+        let dep = redo::File::from_name(&mut ptx, &t, true)?;
+        if Path::new(&t).exists() || ptx.state().env().base().join(dep.name()).exists() {
             return Err(anyhow!("{:?} already exists", t));
         }
         f.add_dep(
